@@ -31,6 +31,13 @@ C14_Datagram == At("ext") =>
 C14_Objects == At("ext") /\ E.d.form \in {"compliant", "legacy"} =>
     /\ E.p.has_ext /\ E.p.version = 2
     /\ E.p.objs = E.d.objs
+\* every reported object lies inside the extension structure: its length field covers exactly its header and
+\* payload, and the objects together do not exceed the structure
+RECURSIVE SumLen(_, _)
+SumLen(objs, i) == IF i > Len(objs) THEN 0 ELSE objs[i].olen + SumLen(objs, i + 1)
+C14_ObjectsInside == ((At("ext") \/ (At("extc") /\ ~E.panic)) /\ E.p.has_ext) =>
+    /\ \A i \in 1..Len(E.p.objs) : E.p.objs[i].olen = 4 + E.p.objs[i].plen
+    /\ SumLen(E.p.objs, 1) <= E.p.e_len - 4
 C14_Parsed == ~At("ext_unparsed")
 \* (drift) the split is the transcribed splitter
 C14_SplitModel == (At("ext") \/ (At("extc") /\ ~E.panic)) =>
